@@ -417,13 +417,20 @@ def run_scenario(sc, tape_mode="log", script=None, keep_raw=False, provider=None
             rows_before, _ = proj.storage_rows()
             self_in_bg = rows_before is not None and any(r is x for r in rows_before)
             kw = {}
-            if n_over is not None:
+            if n_over is not None and n_over != "manual":
                 kw["n_inner_samples"] = n_over
             if not upd:
                 kw["update_storage"] = False
             outcome, exc_name, ret = "ret", "", None
+            manual = n_over == "manual"
+            if manual:
+                kw = {}
             try:
-                ret = ex.explain_one(x, y, **kw)
+                if manual:
+                    ex.update_storage(x, y)        # the public manual storage update, between explain_one calls
+                    outcome = "manual"
+                else:
+                    ret = ex.explain_one(x, y, **kw)
             except Boom:
                 outcome, exc_name = "exc", "Boom"
             except TapeMismatch:
@@ -432,7 +439,7 @@ def run_scenario(sc, tape_mode="log", script=None, keep_raw=False, provider=None
                 outcome, exc_name = "err", type(e).__name__ + ": " + str(e)[:200]
             post = proj.state()
             rows_after, ys_after = proj.storage_rows()
-            n_eff = n_over if n_over is not None else sc.n_inner
+            n_eff = n_over if n_over not in (None, "manual") else sc.n_inner
             call = {"x": [red(v) for v in xs], "y": y, "n": n_eff, "upd": bool(upd), "pre": pre, "post": post,
                     "outcome": outcome, "exc": exc_name, "fault": rec.raised_at[1] if rec.raised_at else 0,
                     "models": [dict(m) for m in rec.models],
@@ -447,6 +454,7 @@ def run_scenario(sc, tape_mode="log", script=None, keep_raw=False, provider=None
                     "self_in_bg": bool(self_in_bg),
                     "args_unmod": (x == x_copy and list(ex.feature_names) == names_copy),
                     "ret_is_prop": (outcome != "ret") or _same_dict(ret, ex.importance_values),
+                    "nrows_after": len(rows_after) if rows_after is not None else -1,
                     "ret_keys_ok": (outcome != "ret") or _keys_match(ret, names, pre["seen"] >= 1),
                     "stored_after": _stored_after(rows_after, ys_after, x, y, sc.store_targets),
                     "normok": _normok(ex),
@@ -555,6 +563,8 @@ def random_scenario(rng, cls=None, quickness=1, **force):
         xs = [F(rng.randrange(-3, 4), rng.choice([1, 1, 2])) for _ in range(d)]
         y = rng.randrange(0, 3)
         n_over = rng.choice([None, None, None, 1, 2])
+        if i > 0 and rng.random() < 0.07:
+            n_over = "manual"
         upd = rng.random() < 0.9 or i == 0
         stream.append((xs, y, n_over, upd))
     kw = dict(cls=cls, d=d, names=names, n_inner=n_inner, dynamic=dynamic, alpha=alpha, companion=rng.random() < 0.3,
